@@ -150,6 +150,7 @@ Valid(r, s) ==
   CASE r.name = "queens"          -> IsQueens(r.args[1], s)
     [] r.name = "latin_square"    -> IsLatin(Len(r.args[1]), s, r.args[1][1]) /\ Len(s) = Len(r.args[1]) * Len(r.args[1])
     [] r.name = "latin_square_rc" -> IsLatinRC(r.args[1], s)
+    [] r.name = "quasigroup"      -> IsLatinRC(r.args[1], s) /\ \A a \in 0..(r.args[1] - 1) : Cell(r.args[1], s, a, a) = a
     [] r.name = "quasigroup5"     -> IsQuasigroup5(r.args[1], s)
     [] r.name = "magic_square"    -> IsMagicSquare(r.args[1], s)
     [] r.name = "magic_sequence"  -> IsMagicSequence(r.args[1], s)
